@@ -17,6 +17,7 @@ type Obligation struct {
 	Src    string
 	Func   string
 	Cover  bool // cover obligation: expected SAT (reachability)
+	Hints  map[string]bool // labels of the quantified hypotheses this obligation may use (nil: all)
 	Status string
 	Solver string
 	TimeS  float64
@@ -39,6 +40,11 @@ type FuncVC struct {
 	obs       []*Obligation
 	counter   int
 	cards     map[string]bool
+	letVars   map[string]bool   // names bound by let in expanded spec functions
+	defs      map[string]string // definitional constants: name -> defining term
+	defByTerm map[string]string // defining term -> name
+	defOrder  []string
+	copyIns   map[string]types.Type // refs of boxed copies of escaped interior pointers (read-only model)
 	strFuns   bool
 	boxes     map[string]bool
 	notes     []string // unsupported constructs / approximations encountered
@@ -55,13 +61,15 @@ type FuncVC struct {
 	scopeEnd   map[string]string // scoped assumption "pc\x00formula" -> pc at which it is forgotten
 	openScoped []string
 	entryPC    string          // pc after the preconditions were assumed
+	consLabel  map[string]string // pc \x00 constraint -> label (for hints)
+	softCut    map[string]bool   // cut pcs that forget quantified facts only (loop heads)
 	cutAt      map[string]string // pc at which a cut takes effect -> pc just before the cut's own assertions
 }
 
 func NewFuncVC(w *World, name string) *FuncVC {
 	return &FuncVC{w: w, name: name, decls: map[string]string{}, funDecls: map[string]string{},
-		pcParents: map[string][]string{}, pcCons: map[string][]string{}, cards: map[string]bool{},
-		boxes: map[string]bool{}, globals: map[*types.Var]string{}, joins: map[string][]string{}, opaqueMono: map[string]bool{}, reveal: map[string]bool{}, hide: map[string]bool{}, verNext: map[string]string{}, scopeEnd: map[string]string{}, cutAt: map[string]string{}}
+		pcParents: map[string][]string{}, pcCons: map[string][]string{}, cards: map[string]bool{}, copyIns: map[string]types.Type{}, letVars: map[string]bool{}, defs: map[string]string{}, defByTerm: map[string]string{},
+		boxes: map[string]bool{}, globals: map[*types.Var]string{}, joins: map[string][]string{}, opaqueMono: map[string]bool{}, reveal: map[string]bool{}, hide: map[string]bool{}, verNext: map[string]string{}, scopeEnd: map[string]string{}, cutAt: map[string]string{}, softCut: map[string]bool{}, consLabel: map[string]string{}}
 }
 
 func (vc *FuncVC) fresh() int { vc.counter++; return vc.counter }
@@ -121,6 +129,11 @@ func (vc *FuncVC) needCard(ks string) {
 			set, set, c("S"), c("T"), n, n, c("S"), c("T")),
 	)
 	vc.declareFun("dwit!"+n, []string{set, set}, ks)
+	// extensionality, phrased for cardinalities: sets of different cardinality differ at some element
+	vc.declareFun("ewit!"+n, []string{set, set}, ks)
+	vc.axioms = append(vc.axioms,
+		fmt.Sprintf("(forall ((S %s) (T %s)) (! (or (= %s %s) (not (= (select S (ewit!%s S T)) (select T (ewit!%s S T))))) :pattern (%s %s)))",
+			set, set, c("S"), c("T"), n, n, c("S"), c("T")))
 }
 
 func (vc *FuncVC) needStrFuns() {
@@ -318,7 +331,14 @@ func (vc *FuncVC) QueryGoal(ob *Obligation, choice map[string]string, goal strin
 		ancSet[p] = true
 	}
 	// cuts: facts learnt between the entry region and a cut point above the obligation are forgotten
+	keepEntry := map[string]bool{}
+	if vc.entryPC != "" {
+		for _, p := range vc.ancestors(vc.entryPC, choice) {
+			keepEntry[p] = true
+		}
+	}
 	dropped := map[string]bool{}
+	softDropped := map[string]bool{} // loop-head cuts: only the quantified facts are forgotten
 	if vc.entryPC != "" {
 		keep := map[string]bool{}
 		for _, p := range vc.ancestors(vc.entryPC, choice) {
@@ -328,7 +348,14 @@ func (vc *FuncVC) QueryGoal(ob *Obligation, choice map[string]string, goal strin
 			if from, isCut := vc.cutAt[p]; isCut {
 				for _, q := range vc.ancestors(from, choice) {
 					if !keep[q] {
-						dropped[q] = true
+						if vc.softCut[p] {
+							if !dropped[q] {
+								softDropped[q] = true
+							}
+						} else {
+							dropped[q] = true
+							delete(softDropped, q)
+						}
 					}
 				}
 			}
@@ -352,6 +379,14 @@ func (vc *FuncVC) QueryGoal(ob *Obligation, choice map[string]string, goal strin
 			if end, scoped := vc.scopeEnd[p+"\x00"+c]; scoped && end != "" && ancSet[end] {
 				continue // a ghost assertion whose window has closed
 			}
+			if softDropped[p] && (strings.Contains(c, "(forall ") || strings.Contains(c, "(exists ")) {
+				continue
+			}
+			if ob.Hints != nil && (strings.Contains(c, "(forall ") || strings.Contains(c, "(exists ")) {
+				if l := vc.consLabel[p+"\x00"+c]; !ob.Hints[l] && !(ob.Hints["requires"] && keepEntry[p]) {
+					continue // proof hint: this quantified hypothesis is not among the named ones
+				}
+			}
 			fmt.Fprintf(&body, "(assert (=> %s %s))\n", p, c)
 		}
 	}
@@ -362,6 +397,24 @@ func (vc *FuncVC) QueryGoal(ob *Obligation, choice map[string]string, goal strin
 		fmt.Fprintf(&body, "(assert %s)\n", goal)
 	} else {
 		fmt.Fprintf(&body, "(assert (not %s))\n", goal)
+	}
+	// definitional constants that occur (transitively) in the body
+	{
+		textSoFar := body.String()
+		added := map[string]bool{}
+		for changed := true; changed; {
+			changed = false
+			used := usedSymbols(textSoFar)
+			for _, n := range vc.defOrder {
+				if used[n] && !added[n] {
+					added[n] = true
+					changed = true
+					line := fmt.Sprintf("(assert (= %s %s))\n", n, vc.defs[n])
+					body.WriteString(line)
+					textSoFar += line
+				}
+			}
+		}
 	}
 	// Only declare constants that occur in the body (keeps queries small)
 	text := body.String()
@@ -429,6 +482,50 @@ func (vc *FuncVC) QueryGoal(ob *Obligation, choice map[string]string, goal strin
 	out.WriteString(text)
 	out.WriteString("(check-sat)\n")
 	return out.String()
+}
+
+// groundTerm: every symbol of t in argument position is a declared constant, a literal or a sort name
+// (so no quantified or let-bound variable occurs in it).
+func (vc *FuncVC) groundTerm(t string) bool {
+	start := -1
+	for i := 0; i <= len(t); i++ {
+		var c byte = ' '
+		if i < len(t) {
+			c = t[i]
+		}
+		if c == ' ' || c == '(' || c == ')' || c == '\n' || c == '\t' {
+			if start >= 0 {
+				tok := t[start:i]
+				head := start > 0 && t[start-1] == '('
+				if !head {
+					_, declared := vc.decls[tok]
+					switch {
+					case declared, tok == "true", tok == "false", tok == "as", tok == "const":
+					case tok[0] >= '0' && tok[0] <= '9':
+					case tok[0] >= 'A' && tok[0] <= 'Z' && !strings.Contains(tok, "!"):
+					default:
+						return false
+					}
+				}
+				start = -1
+			}
+		} else if start < 0 {
+			start = i
+		}
+	}
+	return true
+}
+
+// defConst returns a constant defined to equal the ground term t (one constant per distinct term).
+func (vc *FuncVC) defConst(prefix, sort, t string) string {
+	if n, ok := vc.defByTerm[t]; ok {
+		return n
+	}
+	n := vc.freshConst(prefix, sort)
+	vc.defs[n] = t
+	vc.defByTerm[t] = n
+	vc.defOrder = append(vc.defOrder, n)
+	return n
 }
 
 func usedSymbols(text string) map[string]bool {
